@@ -93,12 +93,29 @@ pub fn run(ctx: &Ctx) {
     ctx.assume("Sdt writes overlapping bytes 4..8 are moved away (a caller overwriting the Length field is not a builder operation; that interaction is C13's)");
     ctx.assume("documented preconditions as in C01");
     let seed = ctx.seed;
+    {
+        // the public static size helpers must name the number of bytes the structure serialises to
+        use acpi_tables::{facs, gas, rsdp, tpm2};
+        let sizes: [(&str, usize, usize); 4] = [
+            ("facs::FACS::len()", facs::FACS::len(), ser(&facs::FACS::new()).len()),
+            ("rsdp::Rsdp::len()", rsdp::Rsdp::len(), ser(&rsdp::Rsdp::new(*b"OEMIDX", 0x1000)).len()),
+            ("gas::GAS::len()", gas::GAS::len(), ser(&gas::GAS::new(gas::AddressSpace::SystemMemory, 8, 0, gas::AccessSize::ByteAccess, 0x1000)).len()),
+            ("tpm2::TpmServer1_2::len()", tpm2::TpmServer1_2::len(), ser(&tpm2::TpmServer1_2::new(*b"OEMIDX", *b"TABLEID0", 1)).len()),
+        ];
+        let vs: Vec<Violation> = sizes.iter().filter(|(_, a, b)| a != b).map(|(n, a, b)| Violation::new("C02", n, "length-field", "static len() != serialised size".into(), format!("len()={} serialised={}", a, b))).collect();
+        ctx.add_evals(4);
+        ctx.add_engine("directed:c02.static-len", 4);
+        ctx.report("c02.static-len", serde_json::json!({"case": "static-len"}), vs);
+    }
     table_list(ctx, "c02.directed", directed_programs(ALL, seed), &oracle, &nontrivial);
     table_list(ctx, "c02.long", long_programs(ALL, seed, ctx.quick()), &oracle, &nontrivial);
     table_pt(ctx, "c02.random", ALL, ctx.scale(6_000, 300_000), &oracle, &nontrivial);
 }
 
 pub fn replay(case: &serde_json::Value) -> Vec<Violation> {
+    if case.as_str() == Some("static-len") {
+        return vec![]; // re-run by every check run (directed, no stored input)
+    }
     let p: Program = serde_json::from_value(case.clone()).expect("replay case must be a table program");
     oracle(&p)
 }
